@@ -128,6 +128,17 @@ def check_property(pid, tier, seed):
         ev['violations'] = 1; ev['wall_s'] = time.time() - t0
         write_evidence(pid, ev)
         return 1
+    # cross-check of the extraction: a sample of socket cases re-evaluated inside Coq (vm_compute)
+    try:
+        from . import kernel_xcheck
+        with build.lock():
+            n_x, bad_x = kernel_xcheck.xcheck(mlines, workdir, 40 if tier == 'quick' else 400, rng)
+        cov['kernel_crosscheck'] = {'cases_evaluated_in_coq': n_x, 'disagreements_with_extracted_driver': len(bad_x)}
+        for cid, kv, ev_ in bad_x:
+            mismatches.append((cid, 'extraction-vs-kernel', 'kernel digest %s' % kv, 'extracted digest %s' % ev_))
+    except build.BuildError as e:
+        cov['kernel_crosscheck'] = {'error': e.what}
+        mismatches.append(('-', 'extraction-vs-kernel: ' + e.what, None, e.output[-500:]))
     case_by_id = {}
     for line in cases:
         f = line.split(' ')
